@@ -98,6 +98,9 @@ func (m *Model) runCheck(prop, tier string, keep bool, timeout int) int {
 		if prop == "C01" && !ct.hasProp("C01") && ct.Opts["safety"] != "on" {
 			continue
 		}
+		if ct.Trusted {
+			continue
+		}
 		e, err := m.verifyFunc(name, ct)
 		if err != nil {
 			fmt.Printf("ERROR %v\n", err)
@@ -219,7 +222,11 @@ func (m *Model) runCheck(prop, tier string, keep bool, timeout int) int {
 	inl := map[string]bool{}
 	hav := map[string]bool{}
 	var notes []string
+	explicit := map[string]bool{}
 	for _, e := range encs {
+		for k := range e.explicitAssumes {
+			explicit[k] = true
+		}
 		for k := range e.assumedCallees {
 			assumed[k] = true
 		}
@@ -258,11 +265,12 @@ func (m *Model) runCheck(prop, tier string, keep bool, timeout int) int {
 			"inlined_callees":          sortedKeys(inl),
 			"havocked_callees":         sortedKeys(hav),
 			"spec_axioms":              axioms,
+			"explicit_assumptions":     sortedKeys(explicit),
 			"samples":                  samples,
 			"notes":                    notes,
 			"repo_source_hash":         m.sourceHash(),
 		},
-		"assumptions": standingAssumptions(sortedKeys(assumed), sortedKeys(hav)),
+		"assumptions": append(standingAssumptions(sortedKeys(assumed), sortedKeys(hav)), prefixAll("explicit assumption in a contract: ", sortedKeys(explicit))...),
 	}
 	data, _ := json.MarshalIndent(ev, "", " ")
 	os.MkdirAll(filepath.Join(root, "evidence"), 0o755)
@@ -272,6 +280,14 @@ func (m *Model) runCheck(prop, tier string, keep bool, timeout int) int {
 		return 1
 	}
 	return 0
+}
+
+func prefixAll(p string, l []string) []string {
+	var out []string
+	for _, x := range l {
+		out = append(out, p+x)
+	}
+	return out
 }
 
 func truncate(s string, n int) string {
@@ -322,6 +338,9 @@ func standingAssumptions(assumed, hav []string) []string {
 	for _, a := range assumed {
 		if strings.HasPrefix(a, "ext:") {
 			out = append(out, "assumed library model: "+a[4:])
+		}
+		if strings.HasPrefix(a, "trusted:") {
+			out = append(out, "trusted contract (assumed, body not verified against it): "+a[8:])
 		}
 	}
 	for _, h := range hav {
